@@ -281,6 +281,13 @@ fn check_survivor(
 		));
 	}
 	let head_id = head_id.unwrap();
+	if head_id != sc.old_head && head_id != sc.new_head && sc.kind == "plain-extension" && sc.age == "none" {
+		node.stop();
+		return Some(viol(
+			key("regressed-below-old-head-without-spends"),
+			format!("{}: the interrupted block spends nothing, yet the node reopened at #{} (h{}), below the old head #{}: committed blocks were dropped without need", ctx, head_id, d.head_height, sc.old_head),
+		));
+	}
 	if head_id != sc.old_head && head_id != sc.new_head {
 		res.probe("reopened_on_ancestor");
 	} else if head_id == sc.new_head && sc.new_head != sc.old_head {
@@ -587,6 +594,20 @@ pub fn build(seed: u64, long: bool) -> Result<CrashWorld, String> {
 					new_head: x,
 				});
 			}
+		}
+		// a block that spends nothing: whatever the kill point, nothing was removed from the leaf
+		// sets, so the recovery has no reason to fall back below the old head
+		if let Ok(x) = w.extend_empty(tip, 0) {
+			scenarios.push(Scenario {
+				kind: "plain-extension".into(),
+				age: "none".into(),
+				base: trunk.clone(),
+				base_compact: false,
+				ops: vec![COp::Block(x)],
+				redeliver: vec![],
+				old_head: tip,
+				new_head: x,
+			});
 		}
 		// S7 header first, then the block
 		scenarios.push(Scenario {
